@@ -32,7 +32,8 @@ def _fails(prop_id, spec, sc, rule):
         if v["rule"] == rule:
             if rule == "world_unbuildable":
                 # keep the same failure (same exception text), not just any unbuildable world
-                key = str(v.get("msg"))[:80]
+                import re
+                key = re.sub(r"\d+", "N", str(v.get("msg")))[:80]
                 if _MSG.setdefault("w", key) != key:
                     continue
             return True, pay
